@@ -35,7 +35,7 @@ func init() {
 		id := 0
 		emit := func(tag string, b []byte) {
 			id++
-			js, _ := json.Marshal(map[string]interface{}{"id": fmt.Sprintf("%s-%d", tag, id), "k": "total", "src": Bytes(b), "tag": tag, "dl": 1500})
+			js, _ := json.Marshal(map[string]interface{}{"id": fmt.Sprintf("%s-%d", tag, id), "k": "total", "src": Bytes(b), "tag": tag, "dl": 4000})
 			w.Write(js)
 			w.WriteByte('\n')
 		}
